@@ -117,6 +117,16 @@ inline std::string saveNif(NifFile& n, bool raw) {
 	return os.str();
 }
 
+// Save into a stream that already holds `pre` (a container, an archive member, a second model appended): returns the whole stream
+inline std::string saveNifAfter(NifFile& n, bool raw, const std::string& pre) {
+	std::ostringstream os(std::ios::binary);
+	os.write(pre.data(), (std::streamsize)pre.size());
+	NifSaveOptions o;
+	if (raw) { o.optimize = false; o.sortBlocks = false; }
+	n.Save(os, o);
+	return os.str();
+}
+
 // the file-name routes of Load / Save (scratch files under <verif>/.cache/tmp, removed at once)
 std::string scratchPath(const char* tag);
 inline int loadNifByName(NifFile& n, const std::string& b, bool terrain = false) {
